@@ -306,10 +306,7 @@ func exploreAll(worker string, scenarios []string, boundOf func(string) int, bas
 			return nil, nil, errs[i]
 		}
 		x := outs[i]
-		if x.Diverged != "" {
-			return nil, nil, fmt.Errorf("replay divergence in %s %s", sc, x.Diverged)
-		}
-		fallback := x.ResetFailed
+		fallback := x.ResetFailed || x.Diverged != "" // (a divergence inside one process = the reset was incomplete)
 		var confirmed []schedViolation
 		for _, v := range x.Violations {
 			var prefix []int
